@@ -6,6 +6,7 @@ package sched
 import (
 	"bytes"
 	"context"
+	"errors"
 	"runtime"
 	"strconv"
 	"sync"
@@ -55,9 +56,34 @@ func init() {
 
 // With returns a cancellable context carrying a controller for one Send.
 func With(parent context.Context, p Plan) (context.Context, context.CancelFunc, *Ctl) {
-	ctx, cancel := context.WithCancel(parent)
+	return WithKind(parent, p, 0)
+}
+
+// ErrCause is the custom cancellation cause used by the WithCancelCause flavour.
+var ErrCause = errors.New("harness: custom cancellation cause")
+
+// WithKind is With for a chosen context flavour: 0 WithCancel, 1 WithCancelCause (cancelled with
+// ErrCause), 2 WithTimeoutCause far in the future wrapped by WithCancel, 3 a value context on top.
+func WithKind(parent context.Context, p Plan, kind int) (context.Context, context.CancelFunc, *Ctl) {
+	var ctx context.Context
+	var cancel context.CancelFunc
+	switch kind {
+	case 1:
+		c, cc := context.WithCancelCause(parent)
+		ctx, cancel = c, func() { cc(ErrCause) }
+	case 2:
+		c1, c1cancel := context.WithTimeoutCause(parent, time.Hour, ErrCause)
+		c, cc := context.WithCancelCause(c1)
+		ctx, cancel = c, func() { cc(ErrCause); c1cancel() }
+	default:
+		ctx, cancel = context.WithCancel(parent)
+	}
 	c := &Ctl{plan: p, cancel: cancel, perPoint: map[string]int{}}
-	return context.WithValue(ctx, key{}, c), cancel, c
+	ctx = context.WithValue(ctx, key{}, c)
+	if kind == 3 {
+		ctx = context.WithValue(ctx, struct{ k string }{"other"}, 1)
+	}
+	return ctx, cancel, c
 }
 
 func goid() int64 {
